@@ -86,6 +86,11 @@ Proof.
     cbn [cvals skipn]. apply IH. cbn in L. lia.
 Qed.
 
+(** the record round trip, with the table's record kind looked up *)
+Lemma wp k vals s : wline T k vals = Ok s -> pline T k s = cvals (sp k) vals.
+Proof. apply wline_pline. Qed.
+Lemma pline_eq k k' l : sp k = sp k' -> pline T k l = pline T k' l.
+Proof. unfold pline, Sections.sp. intro E. rewrite E. reflexivity. Qed.
 (** read_value_line after write_value_line *)
 Lemma dict_line k d l : wline T k (dict_vals d (nm k)) = Ok l -> pline T k l = cvals (sp k) (dict_vals d (nm k)).
 Proof. apply wline_pline. Qed.
@@ -121,4 +126,80 @@ Corollary fold_add_named_fresh {X} (same : X -> X -> bool) (xs : list X) : all_d
   rev (fold_left (add_named same) xs []) = xs.
 Proof.
   intro D. rewrite fold_add_named_distinct; [rewrite app_nil_r; apply rev_involutive|exact D|reflexivity].
+Qed.
+
+(** ** shape of a record kind of a format table (decided by computation on the regenerated table) *)
+Fixpoint tys_eqb (a b : list fty) : bool :=
+  match a, b with [], [] => true | x :: a', y :: b' => fty_eqb x y && tys_eqb a' b' | _, _ => false end.
+Definition int_ok (f : fspec) : bool := negb (fty_eqb (ft f) Td) || (0 <=? fw f)%Z.
+Definition shape_ok (T : table) (k : string) (tys : list fty) (minw : nat) : bool :=
+  tys_eqb (map ft (sp T k)) tys && forallb int_ok (sp T k) && (minw <=? rec_width T k)%nat.
+Lemma fty_eqb_eq a b : fty_eqb a b = true -> a = b.
+Proof. destruct a, b; cbn; congruence. Qed.
+Lemma tys_eqb_nth a : forall b i ty, tys_eqb a b = true -> nth_error b i = Some ty -> exists x, nth_error a i = Some x /\ x = ty.
+Proof.
+  induction a as [|x a IH]; intros [|y b] i ty E H; cbn in E; try discriminate; [destruct i; discriminate|].
+  apply andb_prop in E as [E1 E2]. apply fty_eqb_eq in E1. destruct i as [|i]; cbn in H |- *.
+  - inversion H; subst. eauto.
+  - eapply IH; eauto.
+Qed.
+Lemma shape_nth T k tys w i ty : shape_ok T k tys w = true -> nth_error tys i = Some ty ->
+  exists f, nth_error (sp T k) i = Some f /\ ft f = ty /\ (ty = Td -> (0 <= fw f)%Z).
+Proof.
+  unfold shape_ok. intros H N. apply andb_prop in H as [H _]. apply andb_prop in H as [H1 H2].
+  destruct (tys_eqb_nth _ _ _ _ H1 N) as [x [Nx Ex]].
+  rewrite nth_error_map in Nx. destruct (nth_error (sp T k) i) as [f|] eqn:F; [|discriminate].
+  cbn in Nx. inversion Nx; subst. exists f. split; [reflexivity|split; [reflexivity|]].
+  intro Ty. rewrite forallb_forall in H2. specialize (H2 f (nth_error_In _ _ F)). unfold int_ok in H2. rewrite Ty in H2. cbn in H2.
+  apply Z.leb_le. exact H2.
+Qed.
+Lemma shape_width T k tys w : shape_ok T k tys w = true -> (w <= rec_width T k)%nat.
+Proof. unfold shape_ok. intro H. apply andb_prop in H as [_ H]. apply Nat.leb_le. exact H. Qed.
+Lemma shape_length T k tys w : shape_ok T k tys w = true -> length (sp T k) = length tys.
+Proof.
+  unfold shape_ok. intro H. apply andb_prop in H as [H _]. apply andb_prop in H as [H _].
+  rewrite <- (map_length ft). revert H. generalize (map ft (sp T k)). intro a. revert tys.
+  induction a as [|x a IH]; intros [|y b] E; cbn in E; try discriminate; [reflexivity|].
+  apply andb_prop in E as [_ E]. cbn. f_equal. apply IH. exact E.
+Qed.
+
+(** names of a record kind *)
+Fixpoint names_eqb (a b : list string) : bool :=
+  match a, b with [], [] => true | x :: a', y :: b' => String.eqb x y && names_eqb a' b' | _, _ => false end.
+Lemma names_eqb_eq a : forall b, names_eqb a b = true -> a = b.
+Proof.
+  induction a as [|x a IH]; intros [|y b] H; cbn in H; try discriminate; [reflexivity|].
+  apply andb_prop in H as [H1 H2]. apply String.eqb_eq in H1. apply IH in H2. congruence.
+Qed.
+(** the list-section pattern: the records, then a line that stops the loop *)
+Lemma list_section {A X} prep stop body (step : A -> X -> A) (xs : list X) (recs : list file) (term : str) (rest : file) (a : A) :
+  Forall2 (enc_ok A prep stop body X step (fun _ => True)) xs recs -> stop (prep term) = true ->
+  loop A prep stop body (S (length (concat recs ++ term :: rest)%list)) a (concat recs ++ term :: rest)%list = Ok (fold_left step xs a, rest).
+Proof.
+  intros F St.
+  destruct (loop_roundtrip A prep stop body X step (fun _ => True) xs recs term rest a (S (length (concat recs ++ term :: rest)%list)) F St I) as [L _].
+  { pose proof (enc_ok_nonempty _ _ _ _ _ _ _ F). rewrite app_length. lia. }
+  exact L.
+Qed.
+Lemma prefix_app p a b : (length p <= length a)%nat -> prefix p (a ++ b)%list = prefix p a.
+Proof.
+  revert a. induction p as [|x p IH]; intros a L; [reflexivity|]. destruct a as [|y a]; [cbn in L; lia|].
+  cbn [app prefix]. f_equal. apply IH. cbn in L. lia.
+Qed.
+(** a name that fills the first field starts the line *)
+Lemma fmt_field_str f name : ft f = Ts -> fits_str f name = true -> fmt_field f (XStr name) = Ok name.
+Proof.
+  intros Ty F. apply andb_prop in F as [L NL]. apply Nat.eqb_eq in L.
+  unfold fmt_field. rewrite Ty. unfold fmt_raw. rewrite Ty. cbn [bind].
+  assert (P : fmt_str (fw f) name = name).
+  { unfold fmt_str, pad, width in *. destruct (fw f <? 0)%Z eqn:N.
+    - unfold ljust. apply Z.ltb_lt in N. replace (Z.to_nat (- fw f)) with (length name) by lia. rewrite Nat.sub_diag. apply app_nil_r.
+    - unfold rjust. apply Z.ltb_ge in N. replace (Z.to_nat (fw f)) with (length name) by lia. rewrite Nat.sub_diag. reflexivity. }
+  rewrite P, L, Nat.leb_refl. reflexivity.
+Qed.
+Lemma wline_name_head T k f0 fs name vs l : sp T k = f0 :: fs -> ft f0 = Ts -> fits_str f0 name = true ->
+  wline T k (XStr name :: vs) = Ok l -> exists rest, l = (name ++ rest)%list.
+Proof.
+  intros S Ty F H. destruct (wline_head T _ _ _ _ _ _ S H) as [s0 [rest [E1 E2]]].
+  rewrite (fmt_field_str _ _ Ty F) in E1. inversion E1; subst. eauto.
 Qed.
